@@ -9,7 +9,7 @@ package rapid
 import (
 	"bufio"
 	"fmt"
-	"math"
+	"io"
 	"os"
 	"path/filepath"
 	"strconv"
@@ -23,6 +23,7 @@ const (
 
 	persistDirMode     = 0775
 	failfileTmpPattern = ".rapid-failfile-tmp-*"
+	maxFailFileLine    = 64 * 1024
 )
 
 var (
@@ -114,18 +115,33 @@ func loadFailFile(filename string) (string, uint64, []uint64, error) {
 	}
 	defer func() { _ = f.Close() }()
 
+	// Captured test output may contain comment lines of any length; they are skipped without
+	// being buffered. A data line is a short number, so a longer one means the file is not ours.
 	var data []string
-	scanner := bufio.NewScanner(f)
-	scanner.Buffer(nil, math.MaxInt) // captured test output may contain lines of any length
-	for scanner.Scan() {
-		s := strings.TrimSpace(scanner.Text())
-		if strings.HasPrefix(s, "#") || s == "" {
+	r := bufio.NewReaderSize(f, maxFailFileLine)
+	for {
+		line, more, err := r.ReadLine()
+		if err == io.EOF {
+			break
+		}
+		if err != nil {
+			return "", 0, nil, fmt.Errorf("failed to load fail file %q: %w", filename, err)
+		}
+		s := strings.TrimSpace(string(line))
+		comment := strings.HasPrefix(s, "#")
+		if more && !comment {
+			return "", 0, nil, fmt.Errorf("failed to load fail file %q: line longer than %v bytes", filename, maxFailFileLine)
+		}
+		for more && err == nil {
+			_, more, err = r.ReadLine() // the rest of a long comment line
+		}
+		if err != nil && err != io.EOF {
+			return "", 0, nil, fmt.Errorf("failed to load fail file %q: %w", filename, err)
+		}
+		if comment || s == "" {
 			continue
 		}
 		data = append(data, s)
-	}
-	if err := scanner.Err(); err != nil {
-		return "", 0, nil, fmt.Errorf("failed to load fail file %q: %w", filename, err)
 	}
 
 	if len(data) == 0 {
